@@ -321,23 +321,58 @@ def frames_array(frames, k, wide=False):
     return a.astype("<f8") if wide else a
 
 
+# provenance axis: the SAME values handed over as arrays a user may well hold - read from a big-endian source, Fortran-ordered,
+# every second element of a larger array, read-only. What is written must not depend on it.
+PROVENANCES = ["be", "fortran", "strided", "readonly"]
+PROV = [None]
+
+
+def pv(a):
+    how = PROV[0]
+    a = np.asarray(a)
+    if how is None or a.dtype == object:
+        return a
+    if how == "be":
+        return a.astype(a.dtype.newbyteorder(">"))
+    if how == "fortran":
+        return np.asfortranarray(a)
+    if how == "readonly":
+        a = a.copy()
+        a.setflags(write=False)
+        return a
+    if a.ndim == 0:
+        return a
+    big = np.zeros(tuple(2 * e for e in a.shape), dtype=a.dtype)
+    v = big[tuple(slice(None, None, 2) for _ in a.shape)]
+    v[...] = a
+    return v
+
+
 def viewport(vp, style=0):
     from basictdf.tdfTypes import CameraViewPort
-    o = np.array(vp[:2], dtype="<i4")
-    s = np.array(vp[2:], dtype="<i4")
+    o = pv(np.array(vp[:2], dtype="<i4"))
+    s = pv(np.array(vp[2:], dtype="<i4"))
     if style == 1:
-        return np.array([vp[:2], vp[2:]], dtype="<i4")   # (2,2) array accepted by the item constructors
+        return pv(np.array([vp[:2], vp[2:]], dtype="<i4"))   # (2,2) array accepted by the item constructors
     return CameraViewPort(o, s)
 
 
-def build(kind, v, wide=False, vpstyle=0):
-    """abstract value -> real block object (public constructors and add-methods)"""
+def build(kind, v, wide=False, vpstyle=0, prov=None):
+    """abstract value -> real block object (public constructors and add-methods); prov: see PROVENANCES"""
+    PROV[0] = prov
+    try:
+        return _build(kind, v, wide, vpstyle)
+    finally:
+        PROV[0] = None
+
+
+def _build(kind, v, wide=False, vpstyle=0):
     if kind == "data3d":
         from basictdf.tdfData3D import Data3D, Data3dBlockFormat, Flags, LinkType, MarkerTrack
         fmt, n, freq, st, vol, rot, tr, flag, links, tracks = v
-        d = Data3D(freq, n, f32(vol), f32(rot).reshape(3, 3), f32(tr), f32(st)[()], Flags(flag), Data3dBlockFormat(fmt))
+        d = Data3D(freq, n, pv(f32(vol)), pv(f32(rot).reshape(3, 3)), pv(f32(tr)), f32(st)[()], Flags(flag), Data3dBlockFormat(fmt))
         for label, frames in tracks:
-            d.add_track(MarkerTrack(text(label), frames_array(frames, 3, wide)))
+            d.add_track(MarkerTrack(text(label), pv(frames_array(frames, 3, wide))))
         if links or (fmt == 1 and len(tracks) % 2 == 1):
             d.links = np.array([tuple(l) for l in links], dtype=LinkType.btype)
         return d
@@ -346,15 +381,15 @@ def build(kind, v, wide=False, vpstyle=0):
         freq, st, n, chans, tracks = v
         d = EMG(freq, n, f32(st)[()])
         for ch, (label, frames) in zip(chans, tracks):
-            d.addSignal(EMGTrack(text(label), frames_array(frames, 1, wide)[:, 0]), channel=ch)
+            d.addSignal(EMGTrack(text(label), pv(frames_array(frames, 1, wide)[:, 0])), channel=ch)
         return d
     if kind == "force3d":
         from basictdf.tdfForce3D import ForceTorque3D, ForceTorqueTrack
         freq, st, n, vol, rot, tr, tracks = v
-        d = ForceTorque3D(freq, n, f32(vol), f32(rot).reshape(3, 3), f32(tr), f32(st)[()])
+        d = ForceTorque3D(freq, n, pv(f32(vol)), pv(f32(rot).reshape(3, 3)), pv(f32(tr)), f32(st)[()])
         for label, frames in tracks:
             a = frames_array(frames, 9, wide)
-            d.add_track(ForceTorqueTrack(text(label), a[:, 0:3].copy(), a[:, 3:6].copy(), a[:, 6:9].copy()))
+            d.add_track(ForceTorqueTrack(text(label), pv(a[:, 0:3].copy()), pv(a[:, 3:6].copy()), pv(a[:, 6:9].copy())))
         return d
     if kind == "platdata":
         from basictdf.tdfForcePlatformsData import ForcePlatformData, ForcePlatformsDataBlock
@@ -362,14 +397,14 @@ def build(kind, v, wide=False, vpstyle=0):
         d = ForcePlatformsDataBlock(f32(st)[()], freq, n)
         for ch, frames in zip(chans, plats):
             a = frames_array(frames, 6, wide)
-            d.add_platform(ForcePlatformData(a[:, 0:2].copy(), a[:, 2:5].copy(), a[:, 5].copy()), channel=ch)
+            d.add_platform(ForcePlatformData(pv(a[:, 0:2].copy()), pv(a[:, 2:5].copy()), pv(a[:, 5].copy())), channel=ch)
         return d
     if kind == "platcalib":
         from basictdf.tdfForcePlatformsCalibration import ForcePlatformInfo, ForcePlatformsCalibrationDataBlock
         chans, plats = v
         d = ForcePlatformsCalibrationDataBlock()
         for ch, (label, size, pos) in zip(chans, plats):
-            d.add_platform(ForcePlatformInfo(text(label), f32(size), f32(pos).reshape(4, 3)), channel=ch)
+            d.add_platform(ForcePlatformInfo(text(label), pv(f32(size)), pv(f32(pos).reshape(4, 3))), channel=ch)
         return d
     if kind == "data2d":
         from basictdf.tdfData2D import Data2D, Data2DFlags
@@ -379,7 +414,7 @@ def build(kind, v, wide=False, vpstyle=0):
             for j, cell in enumerate(row):
                 if cell is not None:
                     a = f32([c for p in cell for c in p]).reshape(-1, 2)
-                    data[i, j] = a.astype("<f8") if wide else a
+                    data[i, j] = pv(a.astype("<f8") if wide else a)
         if nc == 0:
             d = Data2D(nc, nf, freq, f32(st)[()], Data2DFlags(flags))
         else:
@@ -398,12 +433,12 @@ def build(kind, v, wide=False, vpstyle=0):
         for fl, vp in cams:
             a = f64(fl)
             if fmt == 1:
-                cd.append(SeelabCameraData(a[0:9].reshape(3, 3), a[9:12], a[12:14], a[14:16], a[16:18], a[18:20], a[20:22],
+                cd.append(SeelabCameraData(pv(a[0:9].reshape(3, 3)), pv(a[9:12]), pv(a[12:14]), pv(a[14:16]), pv(a[16:18]), pv(a[18:20]), pv(a[20:22]),
                                            viewport(vp, vpstyle)))
             else:
-                cd.append(BTSCameraData(a[0:9].reshape(3, 3), a[9:12], a[12:14], a[14:16], a[16:86], a[86:156], viewport(vp, vpstyle)))
-        return CalibrationDataBlock(DistorsionModel(dist), f32(vol), f32(rot).reshape(3, 3), f32(tr),
-                                    np.array(cam_map, dtype="<i2"), cd, CalibrationDataBlockFormat(fmt))
+                cd.append(BTSCameraData(pv(a[0:9].reshape(3, 3)), pv(a[9:12]), pv(a[12:14]), pv(a[14:16]), pv(a[16:86]), pv(a[86:156]), viewport(vp, vpstyle)))
+        return CalibrationDataBlock(DistorsionModel(dist), pv(f32(vol)), pv(f32(rot).reshape(3, 3)), pv(f32(tr)),
+                                    pv(np.array(cam_map, dtype="<i2")), cd, CalibrationDataBlockFormat(fmt))
     if kind == "optical":
         from basictdf.tdfOpticalSystem import OpticalChannelData, OpticalSetupBlock, OpticalSetupBlockFormat
         fmt, chans = v
@@ -413,7 +448,7 @@ def build(kind, v, wide=False, vpstyle=0):
         from basictdf.tdfEvents import Event, EventsDataType, TemporalEventsData, TemporalEventsDataFormat
         fmt, st, evs = v
         d = TemporalEventsData(TemporalEventsDataFormat(fmt), f32(st)[()])
-        d.events = [Event(text(l), f32(vals), EventsDataType(k)) for l, k, vals in evs]
+        d.events = [Event(text(l), pv(f32(vals)), EventsDataType(k)) for l, k, vals in evs]
         return d
     raise KeyError(kind)
 
